@@ -65,7 +65,9 @@ ANCHORS = [
     # the shipped samples share one weather series: meters that agree on everything but their usage
     ("daily", "default", _b("daily", 1, src="sample")),
     ("daily", "default", _b("daily", 2, src="sample")),
+    ("hourly", "seed1", _b("hourly", 2, src="sample")),
 ]
+assert len(ANCHORS) % 2 == 1   # coprime with the four zygote classes: every anchor meets every class
 
 
 PORTFOLIO = {"hourly": [112, 113, 114, 115], "daily": [118, 119, 120, 121]}
